@@ -2,19 +2,24 @@
 """flip_fixed.py <property> <id-prefix> <commit subject>: mark known findings as fixed (coordinator tool)."""
 import json, sys, subprocess
 pid, prefix, subject = sys.argv[1], sys.argv[2], sys.argv[3]
-p = '/verif/known_findings/%s.json' % pid
-d = json.load(open(p))
+import glob
+paths = sorted(glob.glob('/verif/known_findings/*.json'))
 log = subprocess.run(["git", "-C", "/repo", "log", "--format=%h %s"], stdout=subprocess.PIPE).stdout.decode().splitlines()
 commit = next((l.split()[0] for l in log if subject in l), None)
 assert commit, "no commit with subject containing %r" % subject
 n = 0
-for f in d['findings']:
-    if f['id'].startswith(prefix) and f['status'] == 'known':
-        f['status'] = 'fixed'
-        f['commit'] = commit
-        w = f.get('what', '')
-        if not w.startswith('fixed:'):
-            f['what'] = 'fixed: property=%s %s %s' % (pid, commit, w)
-        n += 1
-json.dump(d, open(p, 'w'), indent=1)
+for p in paths:
+    d = json.load(open(p))
+    ch = False
+    for f in d['findings']:
+        if f.get('property') == pid and f['id'].startswith(prefix) and f['status'] == 'known':
+            f['status'] = 'fixed'
+            f['commit'] = commit
+            w = f.get('what', '')
+            if not w.startswith('fixed:'):
+                f['what'] = 'fixed: property=%s %s %s' % (pid, commit, w)
+            n += 1
+            ch = True
+    if ch:
+        json.dump(d, open(p, 'w'), indent=1)
 print(pid, prefix, '->', n, 'entries fixed by', commit)
